@@ -213,6 +213,15 @@ class _Canon(ast.NodeTransformer):
                 return ast.copy_location(ast.Subscript(value=node.args[0], slice=ast.Tuple(elts=[ast.Slice(), node.args[1]], ctx=ast.Load()), ctx=ast.Load()), node)
         return node
 
+    def visit_Subscript(self, node: ast.Subscript):  # noqa: N802
+        self.generic_visit(node)
+        # divmod(a, b)[1] is a % b, divmod(a, b)[0] is a // b
+        v = node.value
+        if isinstance(node.ctx, ast.Load) and isinstance(v, ast.Call) and isinstance(v.func, ast.Name) and v.func.id == "divmod" and len(v.args) == 2 and not v.keywords \
+                and isinstance(node.slice, ast.Constant) and node.slice.value in (0, 1):
+            return ast.copy_location(ast.BinOp(left=v.args[0], op=ast.Mod() if node.slice.value == 1 else ast.FloorDiv(), right=v.args[1]), node)
+        return node
+
     def visit_If(self, node: ast.If):  # noqa: N802
         self.generic_visit(node)
         pre = self._hoist_walrus(node, "test")
